@@ -146,6 +146,22 @@ def base_system(rng):
     return {"star_m": rng.uniform(0.8, 1.2), "planets": pl, "tmax": rng.uniform(6.0, 14.0)}
 
 
+def edge_system(rng):
+    """edge systems of the frame operations: centre of mass EXACTLY at rest at the origin, a single particle, massless
+    companions (the real particles are then already in their COM frame although a variation moves the COM)"""
+    kind = rng.choice(["binary", "single", "massless", "binary3"])
+    if kind == "binary":                   # symmetric equal-mass binary, Cartesian: COM = 0 exactly
+        m, x, v = rng.choice([0.5, 1.0]), rng.choice([0.5, 1.0, 2.0]), rng.choice([0.25, 0.5])
+        cart = [{"m": m, "x": x, "vy": v}, {"m": m, "x": -x, "vy": -v}]
+    elif kind == "single":
+        cart = [{"m": 1.0}]
+    elif kind == "massless":               # star at rest at the origin, massless planets
+        cart = [{"m": 1.0}, {"m": 0.0, "x": 1.0, "vy": 1.0}, {"m": 0.0, "x": -1.5, "vy": -0.8, "vz": 0.1}]
+    else:                                  # symmetric binary + massless third body
+        cart = [{"m": 1.0, "x": 0.5, "vy": 0.5}, {"m": 1.0, "x": -0.5, "vy": -0.5}, {"m": 0.0, "x": 3.0, "vy": 0.8}]
+    return {"cart": cart, "tmax": rng.uniform(3.0, 8.0), "edge": kind}
+
+
 def setup(lib, spec, shift):
     """build the simulation of spec with the varied quantity shifted by `shift` = {name: delta}."""
     rb = lib.rb
@@ -161,9 +177,13 @@ def setup(lib, spec, shift):
     if spec.get("softening"):
         sim.softening = spec["softening"]
     sys_ = spec["system"]
-    sim.add(m=sys_["star_m"])
-    for pl in sys_["planets"]:
-        sim.add(primary=sim.particles[0], **pl)
+    if "cart" in sys_:                     # edge systems entered in Cartesian coordinates
+        for pc in sys_["cart"]:
+            sim.add(**pc)
+    else:
+        sim.add(m=sys_["star_m"])
+        for pl in sys_["planets"]:
+            sim.add(primary=sim.particles[0], **pl)
     if spec.get("testparticle_class"):
         sim.add(primary=sim.particles[0], m=0.0, a=1.37, e=0.1, inc=0.2, Omega=0.3, omega=1.0, f=2.0)
         if spec["testparticle_class"] == "nactive":
@@ -412,7 +432,7 @@ def check_multiset(lib, spec):
             sp["x"] = "m"
             sp["cartesian_m"] = True
         subs.append(sp)
-    sim = setup(lib, dict(base, x="x", index=1), {})
+    sim = setup(lib, dict(base, x="x", index=0), {})
     nreal = sim.N
     vs = []
     for sp in subs:
@@ -682,6 +702,16 @@ def search(ctx, rebound, libdir):
             ops.append(("rot", rng.uniform(-3, 3), [rng.gauss(0, 1), rng.gauss(0, 1), rng.gauss(0, 1)]) if o == "rot" else (o,))
         do("multiset", {"integrator": rng.choice(["ias15", "ias15", "bs"]), "system": base_system(rng), "sets": sets, "ops": ops},
            ("multi", nset, "+".join(o[0] for o in ops)))
+    # the same oracle on the edge systems of the frame operations (COM exactly zero, N = 1, massless companions) with
+    # variations that move the centre of mass (Cartesian coordinates and masses of any particle, the first one included)
+    for rep in range(ctx.scale(8, 80)):
+        sysd = edge_system(rng)
+        nreal = len(sysd["cart"])
+        nset = rng.choice([1, 2, 3])
+        sets = [(rng.choice(C6 + ["mcart", "mcart"]), rng.randrange(nreal)) for _ in range(nset)]
+        ops = [("com",)] + [rng.choice([("com",), ("rot", rng.uniform(-3, 3), [rng.gauss(0, 1), rng.gauss(0, 1), rng.gauss(0, 1)])])
+                            for _ in range(rng.choice([0, 1]))]
+        do("multiset", {"integrator": "ias15", "system": sysd, "sets": sets, "ops": ops}, ("multi_edge", sysd["edge"], nset))
 
     # fixed findings (/repo 73bd0c3, 32cf4f3) probed under stable keys: softened force, rescaling of a set with a mass variation
     for key, kind, spec, what in (
